@@ -239,9 +239,13 @@ def run_C13(ctx):
     if not q:
         for k, env in enumerate(all_configs(OPTS13[:9])):     # full product of the 9 allocator options (576) at small depth
             plan.append((("rel", "dbg", "sec")[k % 3], "P8o", "S0", 3, ["--observe", "monitor"], env))
-    res = seq_property(ctx, plan,
-        rule="the C01/C04/C05/C12 oracles re-run under option configurations: quick = a pairwise-covering set of {purge_delay -1/0/5, purge_decommits, eager_commit, eager_commit_delay, arena_eager_commit 0/1/2, disallow_arena_alloc, arena_reserve 64MiB/1GiB, abandoned_reclaim_on_free, target_segments_per_thread 0/2, MADV_FREE keeps/drops contents} (thorough: + the full product of the nine allocator options) x all sequences of profile P8o {malloc 8K/64K/1M/17M, zalloc 8K, realloc, free(i), collect(0/1), tick(+1000ms)} (and P7t with threads) up to depth D, alternating rel/dbg/sec builds; additional monitor inside the OS shim: no madvise(DONTNEED/FREE), mprotect(PROT_NONE) or munmap range may intersect a live block; debug/secure builds revoke access on decommit so any touch of decommitted memory is a crash.",
-        assumptions=COMMON_ASSUME + ["options are set through MIMALLOC_* environment variables and parsed by the real option code at process start"])
+    # concurrent clause: purges racing claims/allocations of other threads, under the purge-related settings
+    P0 = {"MIMALLOC_PURGE_DELAY": "0"}; P0R = {"MIMALLOC_PURGE_DELAY": "0", "MIMALLOC_PURGE_DECOMMITS": "0", "VF_RESET_ZERO": "1"}
+    cplan = [("rel", "A2", 2, 0, P0), ("rel", "A2", 2, 0, P0R), ("rel", "A2", 2, 0, {}), ("rel", "A1", 2 if not q else 1, 0, P0), ("dbg", "A2", 1 if q else 2, 0, P0),
+             ("rel", "H4", 2, 0, P0), ("rel", "E1", 1 if q else 2, 0, envs(P0, {"MIMALLOC_ABANDONED_RECLAIM_ON_FREE": "1"})), ("rel", "H2", 1 if q else 2, 0, envs(P0, LAZY))]
+    res = conc_property(ctx, conc_jobs(ctx, cplan), extra_jobs=seq_jobs(ctx, plan),
+        rule="the C01/C04/C05/C12 oracles re-run under option configurations: quick = a pairwise-covering set of {purge_delay -1/0/5, purge_decommits, eager_commit, eager_commit_delay, arena_eager_commit 0/1/2, disallow_arena_alloc, arena_reserve 64MiB/1GiB, abandoned_reclaim_on_free, target_segments_per_thread 0/2, MADV_FREE keeps/drops contents} (thorough: + the full product of the nine allocator options) x all sequences of profile P8o {malloc 8K/64K/1M/17M, zalloc 8K, realloc, free(i), collect(0/1), tick(+1000ms)} (and P7t with threads) up to depth D, alternating rel/dbg/sec builds; additional monitor inside the OS shim: no madvise(DONTNEED/FREE), mprotect(PROT_NONE) or munmap range may intersect a live block; debug/secure builds revoke access on decommit so any touch of decommitted memory is a crash. Concurrent clause (schedule explorer): arena free/alloc/collect races (A1, A2) and remote-free / thread-exit programs (H2, H4, E1) with immediate purging by decommit and by reset: a purge that hits memory another thread just claimed destroys that thread's pattern.",
+        assumptions=COMMON_ASSUME + SCHED_ASSUME + ["options are set through MIMALLOC_* environment variables and parsed by the real option code at process start"])
     res["coverage"]["configurations"] = len(cfgs)
     res["coverage"]["configuration_samples"] = cfgs[:3]
     return res
@@ -340,9 +344,9 @@ def conc_property(ctx, jobs, rule, assumptions, extra_jobs=()):
     outc = sum(r["extra"].get("distinct_outcomes", 0) for r in per_run)
     bmin = min([r["extra"].get("bound_completed", 0) for r in per_run if "bound_completed" in r["extra"]] or [0])
     cov = dict(
-        evaluations=ex + (tot["nodes"] - ex if tot["nodes"] > ex else 0), distinct_nontrivial=max(outc, 0),
-        states=max(outc, 1), transitions=max(cps, 1), traces_validated_against_impl=tot["nodes"],
-        rule=rule + " states = number of distinct execution outcomes (hash of what every thread observed: returned addresses, result codes and the state of its heap when it finished), summed over programs; transitions = scheduling decisions taken at choice points; every execution is a run of the real allocator under the token scheduler, so all explored schedules are validated against the implementation by construction.",
+        evaluations=tot["nodes"], distinct_nontrivial=max(tot["states"], outc),
+        states=max(tot["states"], outc, 1), transitions=max(cps + (tot["transitions"] - cps if tot["transitions"] > cps else 0), 1), traces_validated_against_impl=tot["nodes"],
+        rule=rule + " states = number of distinct execution outcomes (hash of what every thread observed: returned addresses, result codes and the state of its heap when it finished), summed over programs (plus distinct allocator-state fingerprints of sequential runs where a plan has them); transitions = scheduling decisions taken at choice points; every execution is a run of the real allocator under the token scheduler, so all explored schedules are validated against the implementation by construction.",
         samples=samples, exhaustive=not dl, executions=ex, choice_points=cps, instrumented_operations=ops, min_bound_completed=bmin,
         oracle_checks=tot["checks"], runs=per_run,
         explanation="stateless exploration (iterative context bounding): for each preemption bound 0..B every schedule with at most that many preemptions (and at most S spurious weak-CAS failures) is executed in a fresh forked process; operations on addresses that only one thread touches are fused with the next operation, the conflict set is re-validated after every pass and the pass repeated until it is stable")
